@@ -43,7 +43,9 @@ pub enum PasetoError {
   #[error("An unspecified ECSDA error occurred")]
   ECSDAError {
     ///An ECSDA cipher error
-    #[from]
+    // ed25519_dalek::ed25519::Error and p384::ecdsa::Error are both re-exports of signature::Error,
+    // so only one `From` conversion may be derived when both dependencies are enabled
+    #[cfg_attr(not(feature = "ed25519-dalek"), from)]
     source: p384::ecdsa::Error,
   },
   #[cfg(feature = "blake2")]
